@@ -462,10 +462,25 @@ func c31UnitCase(r *verifkit.R, phase string, ci int, rng *verifkit.Rand) {
 		if ok {
 			u.log("succeed", a.name, "")
 			u.sawSuccess = true
+			// a Schedule() issued while this attempt was in flight (the connection was lost again
+			// before the attempt returned) may or may not survive the success: both are accepted.
+			// If its retry comes, it is the first retry of a new sequence (k=0).
+			rearmed := a.pending
 			a.forget()
+			if rearmed != nil {
+				a.optional = &c31Arm{t: rearmed.t, k: 0, n: 1}
+			}
 			ev.reply <- c31Reply{}
 			// synchronise (not a verdict): let the reconnector finish handling the success, so
 			// that a later Schedule() of the harness is not swallowed by the state deletion
+			if rearmed != nil {
+				// an implementation that keeps the re-armed retry stays pending: bounded wait only
+				deadline := time.Now().Add(50 * time.Millisecond)
+				for u.rec.IsPending(a.name) && time.Now().Before(deadline) {
+					time.Sleep(200 * time.Microsecond)
+				}
+				return
+			}
 			if !c31Poll(func() bool { return !u.rec.IsPending(a.name) }) {
 				r.Inconclusive("reconnector still reports the address pending long after a successful attempt")
 				u.broken = true
